@@ -128,7 +128,7 @@ impl NodeP {
         if let Ok(d) = std::env::var("VERIF_CLUSTER_LOG") {
             let open = || std::fs::OpenOptions::new().create(true).append(true).open(format!("{}/node{}.log", d, self.id));
             if let (Ok(o), Ok(e)) = (open(), open()) {
-                cmd.env("RUST_LOG", "info");
+                cmd.env("RUST_LOG", std::env::var("VERIF_CLUSTER_LEVEL").unwrap_or("info".to_string()));
                 self.child = cmd.stdin(Stdio::null()).stdout(Stdio::from(o)).stderr(Stdio::from(e)).spawn().ok();
                 self.stopped = false;
                 return;
